@@ -46,9 +46,12 @@ PROBE_CELLS = [
 def make_doc(seed: int, prop: str) -> tuple[dict, dict]:
     r = rng.stream(seed, "doc")
     g = docgen.DocGen(r, size=r.choice(["tiny", "small", "small", "medium"]), profile="operations")
-    # C18's subject (document names capturing template identifiers) must not leak in here
+    cfg: dict[str, Any] = {"literal_enums": r.random() < 0.2, "docstrings_on_attributes": r.random() < 0.1}
+    if r.random() < 0.2:
+        # custom media types that behave as a known one but must still be SENT as themselves
+        cfg["content_type_overrides"] = {"application/x-sim-archive": "application/octet-stream", "application/x-sim-doc": "application/json"}
+        g.ct_overrides = cfg["content_type_overrides"]
     doc = g.document()
-    cfg = {"literal_enums": r.random() < 0.2, "docstrings_on_attributes": r.random() < 0.1}
     # dedicated single-parameter probe operations (DESIGN A.2): cells the parser accepts but whose
     # calls may raise while the request is being built would blind the oracle in mainstream operations
     if r.random() < 0.35:
@@ -134,7 +137,15 @@ def plan_server(op: dict, doc: dict, c: inst.Canary, prop: str, literal_enums: b
         if r.random() < 0.35:
             pool = NON_ENUM_STATUSES
         st = r.choice(pool)
-        body = json.dumps({"error": c.string()}).encode() if r.random() < 0.6 else c.string().encode()
+        x2 = r.random()
+        if x2 < 0.5:
+            body = json.dumps({"error": c.string()}).encode()
+        elif x2 < 0.7:
+            body = c.string().encode()
+        elif x2 < 0.85:
+            body = c.bytes_() + bytes([0xFF, 0xFE, 0x80, 0xC3]) + bytes(r.randrange(256) for _ in range(r.randint(0, 40)))  # not UTF-8
+        else:
+            body = (c.string() + " ").encode() * 3 + ("é" * r.randint(480, 1500)).encode()[r.randint(0, 1):]  # long, multi-byte characters at odd offsets
         b.update(status=st, documented=False, media_type=r.choice(["application/json", "text/plain", None]), content_hex=body.hex(), J=None, source="undocumented")
     return b
 
@@ -143,6 +154,8 @@ def build_spec(seed: int, prop: str, tier: str) -> dict:
     doc, cfg = make_doc(seed, prop)
     r = rng.stream(seed, "sessions")
     c = inst.Canary(rng.stream(seed, "canary"))
+    rm.OVERRIDES.clear()
+    rm.OVERRIDES.update(cfg.get("content_type_overrides") or {})
     ops = rm.operations(doc)
     sessions = []
     for _s in range(r.choice([1, 1, 2])):
@@ -197,6 +210,11 @@ def build_spec(seed: int, prop: str, tier: str) -> dict:
                     src["server"]["fault"] = None
                 groups.append({"mode": "async" if mode == "sync" else "sync", "calls": [twin]})
                 made += 1
+            # multi-step client history: derive a new client object through the generated builder methods
+            if r.random() < 0.1 and not client["context_manager"]:
+                what = r.choice(["headers", "cookies", "timeout"])
+                val: Any = {"X-Evolved-" + c.token(): c.token()} if what == "headers" else ({"evolved_" + c.token(): c.token()} if what == "cookies" else r.choice([0.5, 5.0, 30.0]))
+                groups.append({"mode": "evolve", "what": what, "value": val, "calls": []})
         sessions.append({"client": client, "groups": groups})
     return {"hashseed": seed % 4, "doc": doc, "config": cfg, "sessions": sessions, "urandom_seed": seed % (2**32)}
 
@@ -263,6 +281,8 @@ class World:
         self.doc = spec["doc"]
         self.cfg = spec.get("config") or {}
         self.lit = bool(self.cfg.get("literal_enums"))
+        rm.OVERRIDES.clear()
+        rm.OVERRIDES.update(self.cfg.get("content_type_overrides") or {})
         self.ops = {o["operationId"]: o for o in rm.operations(self.doc) if o["operationId"]}
         self.pkg = Pkg(self.doc, self.cfg, sandbox)
         self.server = apiserver.Server()
@@ -670,6 +690,21 @@ class World:
                     client.__enter__()
                 observations: dict[Any, dict] = {}
                 for gi, g in enumerate(sess["groups"]):
+                    if g["mode"] == "evolve":
+                        import httpx
+
+                        if g["what"] == "headers":
+                            client = client.with_headers(dict(g["value"]))
+                            cs = dict(cs, headers={**cs["headers"], **g["value"]})
+                        elif g["what"] == "cookies":
+                            client = client.with_cookies(dict(g["value"]))
+                            cs = dict(cs, cookies={**cs["cookies"], **g["value"]})
+                        else:
+                            client = client.with_timeout(httpx.Timeout(g["value"]))
+                            cs = dict(cs, timeout=g["value"])
+                        self.probe(f"client-evolved:{g['what']}")
+                        self.log.append(f"evolve {g['what']}")
+                        continue
                     preps = []
                     for ci, call in enumerate(g["calls"]):
                         p = self.prepare(call, si)
@@ -775,9 +810,9 @@ def shrink_candidates(spec: dict) -> list[dict]:
             s = copy.deepcopy(spec)
             s["sessions"][si]["client"] = simple
             out.append(s)
-    if any((spec.get("config") or {}).values()):
+    if any(v is True for v in (spec.get("config") or {}).values()):
         s = copy.deepcopy(spec)
-        s["config"] = {k: False for k in spec["config"]}
+        s["config"] = {k: (False if isinstance(v, bool) else v) for k, v in spec["config"].items()}
         out.append(s)
     used_ops = {c["op"] for s_ in ss for g in s_["groups"] for c in g["calls"]}
 
